@@ -1,6 +1,6 @@
 CONSTANTS
   Socks = {s1, s2}
-  Tasks = {t1}
+  Tasks = {}
   HandshakeDeaf = FALSE
   CheckThenWait = FALSE
   LateBlind = FALSE
